@@ -7,4 +7,4 @@ Extraction "model.ml"
   h_new h_add h_remove h_removeAll h_contains h_size h_isEmpty h_all h_members h_kind h_equal
   h_clone h_cloneEmpty h_isSubset h_isSuperset h_union h_intersection h_difference
   h_anyMatch h_allMatch h_firstMatch h_selectMatch h_partitionMatch shared_arrays empty_heap
-  powerset partitions vall bell cmpZ cmpZrev cmpZmag cmpZmag3 cmpZrmag grow_double draw_id.
+  powerset partitions vall bell cmpZ cmpZrev cmpZmag cmpZmag3 cmpZrmag cmpsZ set_eq grow_double draw_id.
